@@ -181,6 +181,54 @@ def check_exemption(ctx, P, rule):
         o.fail(bad[0], site=bad[1], witness=bad[2], construct="maintenance fiber may be scheduled")
     else:
         o.ok("%d switch_to sites, all after a state mark" % len(sws), sws)
+    # the other place where the maintenance fiber can be switched away from: the post-switch maintenance it performs itself when it is resumed
+    mt = P.fn("fiber_manager_do_maintenance")
+    o = ctx.ob(rule + ".exempt.maintenance", mt,
+               "nothing fiber_manager_do_maintenance can reach yields while the current fiber is the kernel thread's maintenance fiber: every call of "
+               "fiber_manager_yield / fiber_yield on a call chain from do_maintenance is guarded by current_fiber != maintenance_fiber",
+               "do_maintenance also runs in the maintenance (idle-loop) fiber, right after the thread switched to it because nothing else was runnable; a yield "
+               "there switches away from it in state RUNNING: switch_to marks it READY and its successor queues it like an ordinary fiber -- it can then "
+               "be stolen, and another kernel thread executes this thread's idle loop on this thread's run queues")
+    from core import key_mentions
+    cg = P.callgraph()
+    ms = may_switch(P)
+    YIELDS = ("fiber_manager_yield", "fiber_yield")
+
+    def guarded_site(fn, c):
+        def cp(leaf, pol):
+            l = strip(leaf)
+            if l is None or l.k != "BinaryOperator" or l.op not in ("==", "!="):
+                return False
+            ks = [fn.key(x, resolve=True) for x in l.kids[:2]]
+            cur = [key_mentions(k, lambda x: x[0] == "f" and x[2] == "current_fiber") for k in ks]
+            mai = [key_mentions(k, lambda x: x[0] == "f" and x[2] == "maintenance_fiber") for k in ks]
+            if not ((cur[0] and mai[1]) or (cur[1] and mai[0])):
+                return False
+            return (l.op == "!=") == pol
+        return fn.guarded(c, cp) is None
+    bad = None
+    seen = set()
+    stack = [(mt, [mt.name])]
+    nsites = 0
+    while stack:
+        fn, chain = stack.pop()
+        if fn.name in seen:
+            continue
+        seen.add(fn.name)
+        for c in fn.calls():
+            if not c.callee:
+                continue
+            if c.callee in YIELDS:
+                nsites += 1
+                if not guarded_site(fn, c):
+                    bad = bad or ("`%s` in %s is reachable from do_maintenance (%s) while the maintenance fiber is current" % (c.text[:40], fn.name, " -> ".join(chain)), c, None)
+                continue
+            if c.callee in ms and P.has_fn(c.callee) and c.callee in cg and not guarded_site(fn, c):
+                stack.append((P.fn(c.callee), chain + [c.callee]))
+    if bad:
+        o.fail(bad[0], site=bad[1], witness=bad[2], construct="yield from the maintenance fiber")
+    else:
+        o.ok("%d yield site(s) reachable from do_maintenance, all guarded" % nsites)
 
 
 def check_create_exemption(ctx, P, rule):
